@@ -109,6 +109,9 @@ type gRun struct {
 	boot     []int
 	retries  []string // "<row>:<ok>" per post-start lookup of a fail-once component
 	createdAt, firstAtt, succAtt map[int]int // post-start lookups: in which attempt a node completed / a looked-up node was first tried / succeeded
+	spellingHits []string
+	startCreated map[int]bool // nodes whose creation completed during Run itself
+	inits        map[int]int  // how often Init ran on each node's registered instance, read at the very end
 	typeNameHits []string // custom-named nodes whose default (type) name resolved in a lookup although nothing is registered under it
 	slotInfo map[string][3]string // "row.slot" → kind,target,tagkind+tag
 	appRow   int
@@ -250,6 +253,12 @@ func runGraph(sc *gScen) *gRun {
 		res.status = "err." + res.stageOfFailure(tr, names)
 	}
 	res.created = tr.created
+	res.startCreated = map[int]bool{}
+	for i := range sc.nodes {
+		if tr.created[names[i]] {
+			res.startCreated[i] = true
+		}
+	}
 	res.nested = append([]string{}, tr.nested...)
 	if res.status == "ok" && sc.retry() {
 		// the lazy components whose first creation is made to fail (and the designated entry points of retry cycles): look them
@@ -464,6 +473,23 @@ func runGraph(sc *gScen) *gRun {
 				if hx.Guard(func() { c, err = a.GetComponentByName(def) }) == nil && err == nil && c != nil {
 					res.typeNameHits = append(res.typeNameHits, fmt.Sprintf("%d", i))
 				}
+			}
+			// other spellings of a registered name (letter case, surrounding blanks) are other names
+			for i := range sc.nodes {
+				for _, alt := range []string{strings.ToUpper(names[i]), strings.ToLower(names[i]), " " + names[i], names[i] + " "} {
+					if _, taken := res.rowOf[alt]; taken || alt == names[i] {
+						continue
+					}
+					var c any
+					var err error
+					if hx.Guard(func() { c, err = a.GetComponentByName(alt) }) == nil && err == nil && c != nil {
+						res.spellingHits = append(res.spellingHits, fmt.Sprintf("%d", i))
+					}
+				}
+			}
+			res.inits = map[int]int{}
+			for i, n := range res.nodesObj {
+				res.inits[i] = n.base().Inits
 			}
 		}()
 		for i := range sc.nodes {
@@ -875,6 +901,9 @@ func (r *gRun) oracles() []string {
 	for _, row := range r.typeNameHits {
 		add("c01-type-name-lookup", "GetComponentByName(<default type name of node %s>) returned a component although node %s is registered under its custom name only and nothing else is registered under that type name", row, row)
 	}
+	for _, row := range r.spellingHits {
+		add("c01-spelling-lookup", "GetComponentByName(<the name of node %s in another letter case or padded with blanks>) returned a component although nothing is registered under that spelling", row)
+	}
 	// C04: the first lookup of a component whose Init fails the first time must not hand out the half-built instance
 	seen := map[string]bool{}
 	for _, t := range r.retries {
@@ -918,6 +947,30 @@ func (r *gRun) oracles() []string {
 			add("c05-order", "event %s out of order or repeated (events %v)", e, r.events)
 		}
 		last[id] = rank[k]
+	}
+	// … and every component that completed creation during the start, with the observing processor active (created after
+	// it was registered: not the boot-phase ones), went through ALL six steps
+	if r.status == "ok" {
+		have := map[string]bool{}
+		for _, e := range r.events {
+			have[e] = true
+		}
+		for i := range r.sc.nodes {
+			if !r.startCreated[i] || utInfos[r.sc.nodes[i].ty].pp || unwiredNode(r, i) {
+				continue
+			}
+			for _, k := range []string{"n", "c", "b", "a", "i", "f"} {
+				if !have[fmt.Sprintf("%s%d", k, i)] {
+					add("c05-step-missing", "node %d completed creation in the start but its lifecycle step %q never happened (events %v)", i, k, r.events)
+					break
+				}
+			}
+		}
+		for i, n := range r.inits {
+			if n > 1 && !r.sc.retry() {
+				add("c05-init-twice", "Init ran %d times on the instance of node %d within one start (lookups after the start included)", n, i)
+			}
+		}
 	}
 	r.matchOracles(add)
 	// C13: a failing runner ends the start with an error and nothing is invoked after it
